@@ -130,6 +130,16 @@ func main() {
 		eng.OpaqueStrings[resolveName(k)] = v
 	}
 	for _, p := range cfg.Lenient {
+		if strings.HasSuffix(p, "/...") {
+			// every loaded package below the prefix
+			prefix := pkgPathOf(strings.TrimSuffix(p, "/..."))
+			for _, sp := range ld.prog.AllPackages() {
+				if sp.Pkg.Path() == prefix || strings.HasPrefix(sp.Pkg.Path(), prefix+"/") {
+					eng.LenientPkgs[sp.Pkg.Path()] = true
+				}
+			}
+			continue
+		}
 		eng.LenientPkgs[pkgPathOf(p)] = true
 	}
 	for id, k := range known {
